@@ -97,6 +97,17 @@ def raw_progress_keys(body, cfg, ids):
         prefix = cfg.get('prefix', 'kopf.zalando.org')
         anns = (body.get('metadata') or {}).get('annotations') or {}
         out += [('ann', _ann_key(prefix, h)) for h in ids if _ann_key(prefix, h) in anns]
+        # ...and every other annotation of that prefix that *looks* like a progress record, whatever its name (lengthy ids are
+        # also stored under a shortened, hashed name: recognised by content, not by re-implementing the naming scheme)
+        named = {_ann_key(prefix, h) for h in ids}
+        for k, v in anns.items():
+            if k.startswith(prefix + '/') and k not in named and isinstance(v, str) and v.startswith('{'):
+                try:
+                    rec = json.loads(v)
+                except ValueError:
+                    continue
+                if isinstance(rec, dict) and ({'started', 'stopped', 'success', 'failure', 'retries', 'purpose'} & set(rec)):
+                    out.append(('ann-other-name', k))
     if kind in ('status', 'smart'):
         prog = ((body.get('status') or {}).get(cfg.get('name', 'kopf')) or {}).get('progress') or {}
         out += [('status', h) for h in ids if h in prog]
